@@ -13,7 +13,7 @@ import (
 
 // cliExplore explores one scenario and folds the result into the shard result.
 func cliExplore(c *Ctx, prop string, sc cliScenario, pre int, shardInside bool, tag string) {
-	opt := explore.Options{Preemptions: pre, EnvDevs: 2, Deadline: c.Deadline}
+	opt := explore.Options{Preemptions: pre, EnvDevs: 2, Deadline: c.Deadline, KnownKeys: knownKeys()}
 	if shardInside {
 		opt.Shard, opt.NShards = c.Shard, c.NShards
 	}
@@ -221,6 +221,9 @@ func cliConcurrentScenarios() []cliScenario {
 		{Setup: []cliEv{ev("start", 0), ev("resp", 0)}, Threads: [][]cliEv{nil, {{K: "failwrite"}, ev("start", 0)}, {ev("resp", 0)}, {ev("start", 0)}}, DupIDs: true, Epilogue: "drain+close"},
 		// S15 the same with Close as the reason for the refusal
 		{Setup: []cliEv{ev("start", 0), ev("resp", 0)}, Threads: [][]cliEv{nil, {ev("start", 0)}, {ev("resp", 0)}, {{K: "close"}}}, Epilogue: "close"},
+		// S17 two collector ticks overlap (a Collector may fire from a timer per tick; Agent.Collect is documented safe
+		// for concurrent use): A and B are due at the first, C and D only at the second
+		{Setup: []cliEv{ev("start", 0), ev("start", 1), {K: "tick", Arg: 4}, ev("start", 2), ev("start", 3)}, Threads: [][]cliEv{nil, {tickAfter}, {tickFar}}, Opts: cliOpts{NoRetransmit: true}, Epilogue: "drain+close"},
 		// S10 Do(A) || resp(A) then Do(A) again on the recycled wait handler
 		{Threads: [][]cliEv{nil, {ev("do", 0), ev("do", 0)}, {ev("resp", 0), ev("resp", 0)}}, Epilogue: "drain+close", Opts: cliOpts{PoolFanout: true}},
 	}
